@@ -91,7 +91,9 @@ pub broadcast axiom fn axiom_display_usize(n: &usize, r: String)
     ensures r@ == decimal(*n as nat);
 pub broadcast axiom fn axiom_decimal_digits(n: nat, i: int)
     requires 0 <= i < decimal(n).len(),
-    ensures is_digit(#[trigger] decimal(n)[i]), decimal(n).len() > 0;
+    ensures is_digit(#[trigger] decimal(n)[i]);
+pub axiom fn axiom_decimal_nonempty(n: nat)
+    ensures decimal(n).len() > 0;
 pub broadcast axiom fn axiom_decimal_injective(a: nat, b: nat)
     requires #[trigger] decimal(a) == #[trigger] decimal(b),
     ensures a == b;
